@@ -364,12 +364,14 @@ func (h *histRun) checkTokenResets() {
 }
 
 // checkToken verifies that a request carries a token admissible for its
-// connection: the newest token set before the last quiescent point preceding
-// the request, or any token set on that connection after that point.
+// connection: the newest token set before the last point preceding the request
+// at which the gateway was idle (service requests may be outstanding then, but
+// every token event published before has been processed), or any token set on
+// that connection after that point.
 func (h *histRun) checkToken(r *BusReq, idx int) {
 	sets := h.tokens[idx]
 	var lastQ int64
-	for _, q := range h.qpoints {
+	for _, q := range h.ppoints {
 		if q < r.T {
 			lastQ = q
 		}
